@@ -81,6 +81,13 @@ fn check(acc: &mut Acc, reg: &Registry, s: &dyn Subject, case: &Case, flat: bool
         if let Some(f) = local_rules(&r) {
             fails.push(f);
         }
+        {
+            let seen = if src == Source::Json { vcore::Ov::from_json(&case.payload.to_json()) } else { case.payload.clone() };
+            let pred = refmodel::interp(&reg.defs, s.ty(), &seen);
+            if let Some(d) = compare_receiving_type(&pred, &r) {
+                fails.push((d.rule, d.detail));
+            }
+        }
         if flat {
             if let Some(f) = stage_order(&r) {
                 fails.push(f);
@@ -134,7 +141,7 @@ pub fn run(ctx: &Ctx, reg: &Registry) -> i32 {
         acc,
         Finish {
             level: "exploration",
-            rule: "every subject using from / try_from (by value and by reference) / map / validate / field-level `error =` at field and container level (catalogue + generated), keep-going script, both sources; random payloads plus every single structural mutation of valid payloads (so that every subset of stages fails somewhere). Oracle: the multiset of user-function Call events (name, argument projection, location) == the reference interpreter's (each conversion exactly once per field whose intermediate value deserialized, with exactly that value; map once per field and validate once only when all fields succeeded, validate receiving the finished value and the container's location); failures appear as exactly one foreign report at the field's / container's location (report multiset, hand-over sets); the Ok value is what the functions returned; reports of the field-level error type cross into the container's error type exactly once; no examination or report below a container after its validate ran; stage order conversions -> maps -> validate inside flat subjects. Non-trivial = at least one user function ran or a report was made.".into(),
+            rule: "every subject using from / try_from (by value and by reference) / map / validate / field-level `error =` at field and container level (catalogue + generated), keep-going script, both sources; random payloads plus every single structural mutation of valid payloads (so that every subset of stages fails somewhere). Oracle: the multiset of user-function Call events (name, argument projection, location) == the reference interpreter's (each conversion exactly once per field whose intermediate value deserialized, with exactly that value; map once per field and validate once only when all fields succeeded, validate receiving the finished value and the container's location); failures appear as exactly one foreign report at the field's / container's location (report multiset, hand-over sets); the Ok value is what the functions returned; every report is received first by the error type in scope (the field-level one under `error =`) and reports of the field-level error type cross into the container's error type exactly once; no examination or report below a container after its validate ran; stage order conversions -> maps -> validate inside flat subjects. Non-trivial = at least one user function ran or a report was made.".into(),
             exhaustive: false,
             assumptions: vec!["the instrumented user functions are pure and their behaviour is mirrored in refmodel::vf".into()],
         },
